@@ -6,10 +6,10 @@ class C16(pure.Spec):
     prop = "C16"
     module = "Properties.C16"
     theorems = ["C16_no_early_timeout", "C16_dead_peer_detected_in_window", "C16_dead_peer_is_detected",
-                "C16_prompt_peer_never_times_out", "C16_disabled_is_silent", "C16_no_timeout_when_indefinite", "C16_clamp"]
+                "C16_prompt_peer_never_times_out", "C16_disabled_is_silent", "C16_no_timeout_when_indefinite", "C16_clamp", "C16_pong_with_tick_counts"]
     crate = "ka"
     binary = "vh-ka"
-    design_ref = "DESIGN.md §4 C16"
+    design_ref = "DESIGN.md §5 C16"
     rule = ("a real endpoint under tokio's paused clock (timestamps read from that clock), in-memory transport; options "
             "(I, T) from {0,1,2,3,5}x{0,1,2,3,5,7} x 100 ms incl. T < I, T = I, disabled values, both setter orders; event "
             "histories of 6-25 rounds: advance by exactly one interval / a fraction / a late multiple / boundary offsets, "
